@@ -47,6 +47,8 @@ def scenarios():
     out.append({"name": "restore-after-killed-restore", "cmd": "restore", "jobs": None, "git": "none", "prior": True, "killed_restore_first": True})
     out.append({"name": "archive", "cmd": "archive", "jobs": None, "git": "none", "prior": True})
     out.append({"name": "gc", "cmd": "gc", "jobs": None, "git": "none", "prior": True})
+    # "killed at any point of ANY command": clean removes everything; whatever survives must still be consistent
+    out.append({"name": "clean", "cmd": "clean", "jobs": None, "git": "none", "prior": True})
     return out
 
 
@@ -137,6 +139,8 @@ def command(scn, pr, extra, scroot):
         return ["restore", extra["archive"]]
     if scn["cmd"] == "archive":
         return ["archive", "-o", os.path.join(scroot, "new-archive.tar.gz")]
+    if scn["cmd"] == "clean":
+        return ["clean", "-f"]
     return ["gc", "-v"]
 
 
@@ -330,7 +334,7 @@ def crash_case(scn, k, nth, pr, extra, sc):
 
             kw["poll"] = poll
         else:
-            kw.update(crash_at=k, crash_note=note, extra_files=[shutil.__file__] if scn["cmd"] in ("restore", "gc") else [])
+            kw.update(crash_at=k, crash_note=note, extra_files=[shutil.__file__] if scn["cmd"] in ("restore", "gc", "clean") else [])
         if scn.get("prefork"):
             kw["prefork"] = [tuple(x) for x in scn["prefork"]]
         if scn.get("leftover_clock"):
@@ -379,7 +383,7 @@ def count_case(scn):
         pr, extra = build(sc.root, scn)
         argv = command(scn, pr, extra, sc.root)
         cpath = os.path.join(sc.root, "count.json")
-        r = pr.cond(argv, timeout=120, count=cpath, extra_files=[shutil.__file__] if scn["cmd"] in ("restore", "gc") else [])
+        r = pr.cond(argv, timeout=120, count=cpath, extra_files=[shutil.__file__] if scn["cmd"] in ("restore", "gc", "clean") else [])
         wait_orphans(pr)
         if not os.path.exists(cpath):
             return {"error": cli.brief(r)}
@@ -390,7 +394,7 @@ def count_case(scn):
 
 def main(tier, n=None):
     rep = common.Report(PROP, tier, "fault_enumeration", RULE)
-    rep.assumptions = ["process death only (kernel-buffered writes survive; power loss is out of scope)", "SQLite's own atomic commit is trusted", "`clean` is excluded by the property's quantifier",
+    rep.assumptions = ["process death only (kernel-buffered writes survive; power loss is out of scope)", "SQLite's own atomic commit is trusted", "`clean` completing normally removes recorded versions together with their index (that is its purpose); only a clean that is killed half-way is judged",
                        "os._exit(137) from a sys.monitoring LINE callback = the on-disk effect of SIGKILL at that bytecode boundary; real SIGKILLs at random delays cover death inside C calls"]
     scns = scenarios()
     cli.warm()
